@@ -109,6 +109,69 @@ theorem legal_payload_queued_exactly (ls : List (List Byte)) (hwf : ∀ l ∈ ls
   rw [h]; simp
 
 open QsmtpModel.DataFraming in
+/-- **The DATA phase refines its specification.**  `frameData` (Spec/Lines.lean) follows the
+canonical reader over the bytes: a skipped stretch (stray CR or LF, over-long line) makes the
+message refusable for good, the phase ends at the first line that is a single dot.  For every
+stream, every cut schedule: where the real DATA phase ends, whether the message can be queued, which
+lines make it up and which bytes are left for the command loop are those of `frameData`. -/
+theorem data_phase_refines_frame (s : List Byte) (cuts : List Nat) (fuel : Nat) (hf : s.length < fuel) :
+    Matches (dataPhase [] { rest := s, cuts := cuts } false [] 0 false none fuel)
+      (frameData (s.length + 1) s false []) := by
+  have := dataPhase_refines fuel [] { rest := s, cuts := cuts } false [] 0 false none (by decide) (by simpa using hf)
+  simpa using this
+
+open QsmtpModel.DataFraming in
+/-- **Framing of DATA does not depend on TCP segmentation** (the property as given, for the DATA
+phase and for *all* streams — malformed ones included): two cut schedules of the same stream give
+the same verdict, the same message lines and, unless the stream ended inside DATA, the same bytes
+for the command loop. -/
+theorem data_framing_chunk_independent (s : List Byte) (c1 c2 : List Nat) :
+    let o1 := dataPhase [] { rest := s, cuts := c1 } false [] 0 false none (s.length + 1)
+    let o2 := dataPhase [] { rest := s, cuts := c2 } false [] 0 false none (s.length + 1)
+    o1.verdict = o2.verdict ∧ o1.lines = o2.lines ∧
+      (o1.verdict ≠ .died → o1.inn ++ o1.src.rest = o2.inn ++ o2.src.rest) := by
+  intro o1 o2
+  obtain ⟨a1, a2, a3⟩ := data_phase_refines_frame s c1 (s.length + 1) (Nat.lt_succ_self _)
+  obtain ⟨b1, b2, b3⟩ := data_phase_refines_frame s c2 (s.length + 1) (Nat.lt_succ_self _)
+  have hv : o1.verdict = o2.verdict := by
+    have : toFrameEnd o1.verdict = toFrameEnd o2.verdict := a1.trans b1.symm
+    revert this
+    cases o1.verdict <;> cases o2.verdict <;> simp [toFrameEnd]
+  refine ⟨hv, a2.trans b2.symm, fun hd => ?_⟩
+  exact (a3 hd).1.trans (b3 (hv ▸ hd)).1.symm
+
+open QsmtpModel.DataFraming in
+/-- **As given, for every message that is queued** (the positive form of the last sentence of the
+property): if the DATA phase ends in "queued" then the stream is *exactly* the queued lines — each
+free of CR and LF, each followed by CRLF — then `.` CRLF, then the bytes the command loop goes on
+with.  The end of data of a queued message is never the tail of a malformed line, for any stream
+and any segmentation.  (What remains of the sentence, the *refused* message whose drain ends at the
+tail of a malformed line, is the known finding below.) -/
+theorem queued_only_at_crlf_dot_crlf (s : List Byte) (cuts : List Nat) (fuel : Nat) (hf : s.length < fuel)
+    (hq : (dataPhase [] { rest := s, cuts := cuts } false [] 0 false none fuel).verdict = .queued) :
+    let o := dataPhase [] { rest := s, cuts := cuts } false [] 0 false none fuel
+    s = wire o.lines ++ DOT :: CR :: LF :: (o.inn ++ o.src.rest) ∧
+      ∀ l ∈ o.lines, CR ∉ l ∧ LF ∉ l ∧ l ≠ [DOT] := by
+  intro o
+  obtain ⟨a1, a2, a3⟩ := data_phase_refines_frame s cuts fuel hf
+  have hFq : (frameData (s.length + 1) s false []).verdict = .queued := by
+    rw [← a1]; show toFrameEnd o.verdict = _; rw [hq]; rfl
+  obtain ⟨new, h1, h2, h3⟩ := frame_queued_shape _ s [] hFq
+  have hrest := (a3 (by rw [hq]; simp)).1
+  have hl : o.lines = new := by rw [a2, h1]; simp
+  refine ⟨?_, ?_⟩
+  · rw [hl, hrest]; exact h2
+  · intro l hlm
+    obtain ⟨hno, hnd, _⟩ := h3 l (hl ▸ hlm)
+    exact ⟨((noEol_iff l).mp hno).1, ((noEol_iff l).mp hno).2, hnd⟩
+
+/-- non-vacuity: `a CRLF . CRLF x` cut after every byte is queued with line `a`, `x` is left;
+`a LF . CRLF` is refused, in one piece or cut up -/
+example : (DataFraming.dataPhase [] { rest := [97, 13, 10, 46, 13, 10, 120], cuts := [1, 1, 1, 1, 1, 1, 1] } false [] 0 false none 8).verdict = .queued := by decide
+example : frameData 8 [97, 13, 10, 46, 13, 10, 120] false [] = ⟨.queued, [[97]], [120]⟩ := by decide
+example : frameData 8 [97, 10, 46, 13, 10] false [] = ⟨.refused, [], []⟩ := by decide
+
+open QsmtpModel.DataFraming in
 /-- **As given (last sentence of the property):** the end of data is never taken from the tail of a
 malformed line. -/
 def terminator_only_at_crlf_dot_crlf_full : Prop :=
